@@ -184,6 +184,50 @@ def _zero_check_loop(f, loops, outer, evals_roots, after_bb):
     return None
 
 
+def _zero_search(p, f, outer, evals_roots, after_bb):
+    """`if let Some(i) = evals.iter().position(|&e| e != ZERO) { panic!(..) }` (also find / any): a search over the
+    whole evaluation vector whose predicate is `item != ZERO`, and a hit diverges before the next step."""
+    from .c14 import _is_zero_const
+    for bi, t in f.calls():
+        c = callee_of(t) or {}
+        if f.is_cleanup(bi) or c.get("name") not in ("position", "find", "any") or c.get("krate") != "core" or len(t["a"]) != 2:
+            continue
+        if bi not in outer["own_body"] or bi not in f.reach([after_bb]):
+            continue
+        recv = arg_slice(f, t, 0)
+        if not (recv["locals"] & evals_roots) or _names(f, recv) & TRUNCATING:
+            continue
+        pred = False
+        for ck in arg_slice(f, t, 1)["closures"]:
+            cf = p.funcs.get(ck)
+            if cf is None:
+                continue
+            for bb, a, b, eq, ne in _eq_tests(cf):
+                pass
+            # the closure's result is `item != ZERO` (ne call / Ne comparison written to the return place)
+            for b2, t2 in cf.calls():
+                nm = _name(t2)
+                if nm in ("ne", "eq") and len(t2["a"]) == 2 and not cf.is_cleanup(b2):
+                    for val, z in ((t2["a"][0], t2["a"][1]), (t2["a"][1], t2["a"][0])):
+                        if _is_zero_const(cf, z, b2) and 2 in cf.slice_of_operand(val, at=(b2, cf.INF))["args"]:
+                            from .c25 import _bool_fn
+                            tb = _bool_fn(cf, [{"bb": b2, "local": t2["dest"][0]}])
+                            want = {(True,): True, (False,): False} if nm == "ne" else {(True,): False, (False,): True}
+                            if tb == want:
+                                pred = True
+        if not pred:
+            continue
+        if c["name"] in ("position", "find"):
+            hit = [e for ch in f.result_checks(bi) for e in ch["pass_edges"]]
+            miss = [e for ch in f.result_checks(bi) for e in ch["fail_edges"]]
+        else:
+            hit = [e for ch in f.bool_checks_of(bi) for e in ch["true_edges"]]
+            miss = [e for ch in f.bool_checks_of(bi) for e in ch["false_edges"]]
+        if hit and all(_diverges(f, e[1]) for e in hit) and miss and not f.can_reach(after_bb, [outer["header"]], cut_blocks=[bi]):
+            return bi
+    return None
+
+
 def r2_transitions(ctx):
     p = ctx.p
     f = p.fn(V)
@@ -213,6 +257,8 @@ def r2_transitions(ctx):
            "the main frame is not read at the loop's step before evaluate_transition on every iteration", f, et["sp"]["at"])
     evals_roots = f._mutref_origins(op_local(et["a"][3]), f._defs or (f.defs(0) and f._defs), set())
     Z = _zero_check_loop(f, loops, L, evals_roots, et["t"])
+    if Z is None:
+        Z = _zero_search(p, f, L, evals_roots | f.backward_slice([op_local(et["a"][3])], at=(ebi, f.INF))["locals"], et["t"])
     ctx.ob("R2", "main:every-evaluation-compared-with-zero", Z is not None,
            "after evaluate_transition every element of the evaluation vector is compared with ZERO; unequal diverges" if Z is not None else
            "not every main transition evaluation is compared with ZERO (with the unequal edge diverging) before the next step", f, et["sp"]["at"])
@@ -231,6 +277,8 @@ def r2_transitions(ctx):
            "the auxiliary frame is not read at the loop's step before evaluate_aux_transition", f, xt["sp"]["at"])
     aev_roots = f._mutref_origins(op_local(xt["a"][-1]), f._defs or (f.defs(0) and f._defs), set())
     Za = _zero_check_loop(f, loops, L, aev_roots, xt["t"])
+    if Za is None:
+        Za = _zero_search(p, f, L, aev_roots | f.backward_slice([op_local(xt["a"][-1])], at=(xbi, f.INF))["locals"], xt["t"])
     ctx.ob("R2", "aux:every-evaluation-compared-with-zero", Za is not None,
            "after evaluate_aux_transition every element of the auxiliary evaluation vector is compared with ZERO; unequal diverges" if Za is not None else
            "not every auxiliary transition evaluation is compared with ZERO before the next step", f, xt["sp"]["at"])
@@ -284,7 +332,7 @@ def r3_periodic_and_domain_point(ctx):
     # periodic values: stored from polynom::eval(p, f(x)) before evaluate_transition on every iteration
     pv_roots = f.backward_slice([op_local(et["a"][2])], at=(ebi, f.INF))["locals"]
     evs = [(bi, t) for bi, t in _calls(f, "eval") if bi in L["own_body"]]
-    good = False
+    good, why = False, "the periodic values handed to evaluate_transition are not recomputed from the running domain point on every iteration"
     for bi, t in evs:
         xs = arg_slice(f, t, 1)
         if not (xs["locals"] & xroots):
@@ -295,12 +343,24 @@ def r3_periodic_and_domain_point(ctx):
         src = f.slice_of_operand(f.term(inner["header"])["a"][0], at=(inner["header"], f.INF))
         if "get_periodic_column_polys" not in _names(f, src) and not any("get_periodic_column_polys" in _names(f, f.backward_slice([l])) for l in list(src["locals"])[:6]):
             continue
+        # each polynomial is evaluated at x^(trace_length / its own cycle length): the exponent depends on the
+        # length of the polynomial of this very iteration (columns may have different cycle lengths)
+        in_items = set(inner["item_locals"]) | {inner["item_local"]}
+        own_cycle = False
+        for b2 in xs["calls"]:
+            t2 = f.term(b2)
+            if _name(t2) in ("exp", "exp_vartime") and len(t2["a"]) == 2 and b2 in inner["own_body"]:
+                es = arg_slice(f, t2, 1)
+                if (es["locals"] & in_items) and {"len", "trace_length"} <= _names(f, es):
+                    own_cycle = True
+        if not own_cycle:
+            why = "a periodic value is not evaluated at x^(trace_length / cycle length of its own column)"
+            continue
         # the inner loop precedes evaluate_transition in the iteration and cannot be skipped
         if not f.can_reach(L["some"][0], [ebi], cut_blocks=[inner["header"]]) and bool(src["locals"] & pv_roots):
             good = True
     ctx.ob("R3", "periodic-values-recomputed-from-the-step's-point", good,
-           "every iteration recomputes each periodic value as polynom::eval(poly, x^(n / cycle)) before evaluate_transition" if good else
-           "the periodic values handed to evaluate_transition are not recomputed from the running domain point on every iteration", f, et["sp"]["at"])
+           "every iteration recomputes each periodic value as polynom::eval(poly, x^(n / its own cycle length)) before evaluate_transition" if good else why, f, et["sp"]["at"])
     # both evaluators get the periodic values
     ea = [(bi, t) for bi, t in _calls(f, "evaluate_aux_transition") if bi in L["own_body"]]
     ok = bool(ea) and bool(f.backward_slice([op_local(ea[0][1]["a"][3])], at=(ea[0][0], f.INF))["locals"] & pv_roots)
